@@ -260,6 +260,10 @@ def c17(tier, repo=None, only_cases=None):
         exhaustive = False
     for i, c in enumerate(cases):
         c.setdefault("id", "%s-%d" % (c.get("fam", "r"), i))
+        names = [k["name"] for k in c["calls"]]
+        repeated_inv = any(t["kind"] == "inv" and names.count(t["name"]) >= 2 for t in c["tools"])
+        if repeated_inv and "wrap" not in c and rnd.random() < 0.85:
+            c["wrap"], c["jsonargs_wanted"] = True, True      # the same utils-built tool decoding several calls at once
         c.setdefault("wrap", rnd.random() < 0.4)     # secondary dimension: tools built with components/tool/utils
         c.setdefault("optlist", rnd.random() < 0.2)  # secondary dimension: tool list given per call (WithToolList)
         if "deep" not in c:
@@ -269,7 +273,7 @@ def c17(tier, repo=None, only_cases=None):
         if "jsonargs" not in c:
             # arguments as JSON objects, field "o" omitted in every other call; with wrap the utils tools decode them by default
             # into a pointer-to-struct / map input (the same tool called 2-3 times in one message runs these decodes concurrently)
-            c["jsonargs"] = rnd.random() < (0.8 if c["wrap"] else 0.15)
+            c["jsonargs"] = bool(c.pop("jsonargs_wanted", False)) or rnd.random() < (0.8 if c["wrap"] else 0.15)
             if c["jsonargs"]:
                 flip = rnd.randrange(2)
                 for i, k in enumerate(c["calls"]):
